@@ -35,6 +35,9 @@ ELEMS = {
 }
 
 
+COMPILERS = [c for c in ("gcc", "clang") if shutil.which(c)]
+
+
 def model():
     ms = [BM.meth("alpha_each", "ref", ["cb"], "u64"), BM.meth("alpha_points", "mut", ["cb_p2"], "void")]
     return BM.model([BM.trait("Alpha", ms)], [], [BM.obj("Alpha")])
@@ -140,13 +143,14 @@ def run_once(exe, stubdir, workroot, nmax, caps, keep=False):
         with open(os.path.join(wd, "driver.c"), "w") as f:
             f.write(driver(nmax, caps))
         outs = {}
-        for opt in ("-O0", "-O2"):
-            exe_c = os.path.join(wd, "driver" + opt)
-            p = subprocess.run(["gcc", "-std=gnu99", opt, "-o", exe_c, "driver.c"], cwd=wd, stdout=subprocess.PIPE, stderr=subprocess.STDOUT, text=True)
+        for cc in COMPILERS:
+          for opt in ("-O0", "-O2"):
+            exe_c = os.path.join(wd, "driver-" + cc + opt)
+            p = subprocess.run([cc, "-std=gnu99", opt, "-o", exe_c, "driver.c"], cwd=wd, stdout=subprocess.PIPE, stderr=subprocess.STDOUT, text=True)
             if p.returncode != 0:
                 return {"compile_error": p.stdout[-1500:]}
             q = subprocess.run([exe_c], cwd=wd, stdout=subprocess.PIPE, stderr=subprocess.STDOUT, text=True, timeout=600)
-            outs[opt] = (q.returncode, q.stdout)
+            outs[cc + " " + opt] = (q.returncode, q.stdout)
         return {"outs": outs}
     finally:
         if not keep:
@@ -190,14 +194,14 @@ def run(prop, tier, replay, Ctx):
         return ("replay", 1 if all(hits) else (0 if not any(hits) else 2))
     rep = Report(prop, tier, "model_checking", os.environ.get("VERIF_SEED", 0))
     rep.assume("cbindgen is not available offline: the input header is synthesised (gen/bindgen_headers.py); the helpers under test are emitted by the real cglue-bindgen built from /repo")
-    rep.assume("the driver follows the published calling contract of callbacks (stop after the first false) and iterators (0 = item); gcc -O0 and -O2")
+    rep.assume("the driver follows the published calling contract of callbacks (stop after the first false) and iterators (0 = item); gcc and clang, -O0 and -O2")
     t0 = time.time()
     r = run_once(exe, stubdir, workroot, nmax, caps)
     if "machinery" in r:
         raise Ctx.Machinery(r["machinery"])
     sec = "c_header_helpers"
     rep.rule(sec, "the collecting / counting callbacks and the buffer iterator that the real cglue-bindgen writes into a C header, driven from C for every "
-                  "item count n = 0..=%d x element type {S3, Point2} x capacity {0,1,2,63,64,65,128,n-1,n,n+1} (static collectors), built with gcc -O0 and -O2; "
+                  "item count n = 0..=%d x element type {S3, Point2} x capacity {0,1,2,63,64,65,128,n-1,n,n+1} (static collectors), built with gcc and clang, -O0 and -O2; "
                   "oracle: dynamic collector stores all n items in order; static collector exactly the first min(n, L) and nothing beyond; counter counts n; "
                   "iterator yields the n items in order and then keeps reporting the end; distinct = distinct (helper, element, n, capacity) outcomes" % nmax)
     if "compile_error" in r:
@@ -220,6 +224,6 @@ def run(prop, tier, replay, Ctx):
         if ref is None:
             ref = key
         elif ref != key:
-            rep.record(sec, {"helper": "all", "opt": opt}, None, True, ("chelper:opt_dependent", "the helpers behave differently at -O0 and -O2"))
+            rep.record(sec, {"helper": "all", "opt": opt}, None, True, ("chelper:opt_dependent", "the helpers behave differently between compilers / optimisation levels (gcc, clang x -O0, -O2)"))
     rep.note(sec, "wall_s", round(time.time() - t0, 1))
     return ("report", rep.build())
